@@ -14,8 +14,10 @@ Library-internal state (HIDDEN below) is monitored at every SYNC like any other 
   * hex.mul.dst[0] and the 4-bit hex.mul.add_carry_dst (mul.fj:4, :104-106) - explicit operands of the scalar hex.add_mul;
   * hex.tables.res, hex.tables.ret, hex.mul.ret and the or/and/cmp table jumpers ("expected to be 0 after the jump").
 A macro whose documentation does not name one of these must leave it exactly as it was (that is the "no stale
-carry / table state" half of the property); when such a state is already nonzero before a macro that does not
-name it, nothing is promised (harness: unspecified).
+carry / table state" half of the property). The add / sub carry is `stale_ok`: documented macros (scalar hex.add / hex.sub,
+set_carry, not_carry) leave it set, so every macro that does not name it must still compute its formula whatever it holds, and
+leave it as it was or clean. When one of the OTHER registers ("expected to be 0") is already nonzero before a macro that does
+not name it, nothing is promised (harness: unspecified).
 """
 
 from __future__ import annotations
